@@ -1904,9 +1904,11 @@ func (s *SweepingProvider) batchReprovide(prefix bitstr.Key) {
 		prefix = coveredPrefix
 	}
 
-	// Remove all keys matching coveredPrefix from provide queue. No need to
-	// provide them anymore since they are about to be reprovided.
-	s.provideQueue.DequeueMatching(prefix)
+	// Take all keys matching coveredPrefix from the provide queue and provide
+	// them with the region: keys of the keystore are about to be reprovided
+	// anyway, keys queued by ProvideOnce are not in the keystore and would be
+	// lost otherwise.
+	keys = append(keys, s.provideQueue.DequeueMatching(prefix)...)
 	// Remove covered prefix from the reprovide queue, so since we are about the
 	// reprovide the region.
 	s.reprovideQueue.Remove(prefix)
